@@ -351,6 +351,86 @@ def gap_cases():
     return out
 
 
+def limb_edge_cases():
+    """LIMB-EDGE: inputs for which the two big integers compared by the big-integer path for negative exponents -
+    the digits D (times a power of two) and the halfway significand (2m+1) * 5^n (times a power of two) - lie on
+    different sides of a power of 2^64 and therefore have different limb counts, although they agree to ~60 bits.
+    That needs (2m+1) * 5^n within about 2^-58 (relative) of a power of two; the (n, 2m+1) pairs are found by exact
+    division, and each is combined with every limb count k for which the value is a finite float: D = 2^(64k)
+    (resp. 2^(64k) - 1 when the halfway point lies above the power), exponent -n. Added after a seeded change that
+    compared limbs from the top without comparing lengths first (round 7, C05-M) went unnoticed."""
+    out = []
+    for (p, e_lo, e_hi) in ((53, -1075, 970), (24, -150, 103)):
+        for n in range(1, 1101):
+            P = 5 ** n
+            for t in range(P.bit_length() + p - 2, P.bit_length() + p + 2):
+                M0 = (1 << t) // P
+                for M in (M0, M0 + 1):
+                    if M % 2 == 0 or not ((1 << p) < M < (1 << (p + 1))):
+                        continue
+                    gap = abs(M * P - (1 << t))
+                    if gap << 58 >= (1 << t):
+                        continue
+                    above = M * P > (1 << t)  # halfway point above the power of two: the digits must stay below it
+                    # case A: the halfway significand is shifted left (binary exponent e + n > 0): boundary at bit t + e + n = 64k
+                    for k in range(2, 40):
+                        e = 64 * k - t - n
+                        if e + n > 0 and e_lo <= e <= e_hi:
+                            D = (1 << (64 * k)) - (1 if above else 0)
+                            out.append((-n, str(D)))
+                    # case B: the digits are shifted left (e + n <= 0): boundary at bit t itself, which must be a limb edge
+                    if t % 64 == 0:
+                        for N in range(64, min(t, 2520) + 1, 61):
+                            e = N - t - n
+                            if e + n <= 0 and e_lo <= e <= e_hi:
+                                D = (1 << N) - (1 if above else 0)
+                                out.append((-n, str(D)))
+    return out
+
+
+def ripple_cases():
+    """RIPPLE: integers D of 19*c digits (c = 3, 4, 5, 8 chunks of the big-integer digit accumulation) for which
+    the addition of the LAST 19-digit chunk carries through every lower limb: with R the first 19*(c-1) digits,
+    R * 10^19 = ...0111..1 | 2^64-ish and adding the chunk ripples the carry through 2, 3, 4, 7 whole limbs and on
+    up to the halfway bit of D's binade. D is then an exact tie (delta = 0) or one unit above / below it, so a
+    carry lost anywhere on the way lands on the other side of the halfway point. Solved exactly:
+    R * 5^19 = 2^(N-19) - j (mod 2^(N-18)) with N the position of the halfway bit."""
+    out = []
+    inv_cache = {}
+    for ndig in (57, 76, 95, 152):
+        lo, hi = 10 ** (ndig - 1), 10 ** ndig
+        for bl in range(lo.bit_length(), hi.bit_length() + 1):
+            N = bl - 54  # halfway bit of the f64 binade of a bl-bit integer
+            mod = 1 << (N - 18)
+            inv = pow(5 ** 19, -1, mod)
+            for j in (1, 2, 977, 1 << 20, 19073486328124):  # chunk = j * 2^19 + delta < 10^19
+                r0 = ((1 << (N - 19)) - j) * inv % mod
+                # R * 10^19 must have exactly bl bits and D exactly ndig digits
+                rlo = max(-(-(1 << (bl - 1)) // 10 ** 19), -(-lo // 10 ** 19))
+                rhi = min((1 << bl) // 10 ** 19, hi // 10 ** 19)
+                t0 = -(-(rlo - r0) // mod)
+                found = 0
+                for t in range(t0, t0 + 3):
+                    R = r0 + t * mod
+                    if not (rlo <= R < rhi):
+                        continue
+                    for delta in (0, 1, -1):
+                        c = j * (1 << 19) + delta
+                        if not (0 <= c < 10 ** 19):
+                            continue
+                        D = R * 10 ** 19 + c
+                        ds = str(D)
+                        if len(ds) != ndig or D.bit_length() != bl:
+                            continue
+                        # by construction D = (odd) * 2^N + delta
+                        assert (D - delta) % (1 << N) == 0 and ((D - delta) >> N) % 2 == 1
+                        out.append((0, ds))
+                        found += 1
+                    if found >= 3:
+                        break
+    return out
+
+
 def main():
     ap = argparse.ArgumentParser()
     ap.add_argument('--table', default=None, help='unused: the table is recomputed from its definition')
@@ -366,6 +446,19 @@ def main():
                         continue
                     seen.add(w)
                     lines.append(f"{fmt} {q} {w} {kind}")
+            # inside (and two steps around) the tie window: exact ties and closest approaches for EVERY bit length of w -
+            # the floats whose shortest rendering is itself a tie (2^k * 10^23, k = 50..52) have 16-digit significands
+            # (added after round 7, C03-N: ties at q = 23 were only present with 60..64-bit significands)
+            tie_lo, tie_hi = ((-4, 23) if p == 53 else (-17, 10))
+            if tie_lo - 2 <= q <= tie_hi + 2:
+                for wbits in range(2, 63):
+                    if wbits == 60:
+                        continue
+                    for w, kind in midpoint_cases(q, p, wbits, want=2):
+                        if w in seen or w >= M64 or w <= 0:
+                            continue
+                        seen.add(w)
+                        lines.append(f"{fmt} {q} {w} {kind}")
             # short significands (what renderings with 15..17 / 7..9 digits look like)
             for nd in ((15, 16, 17) if p == 53 else (7, 8, 9)):
                 for w, kind in decimal_near_cases(q, p, nd):
@@ -394,6 +487,10 @@ def main():
                 lines.append(f"{fmt} {q} {w} edge")
     for e, ds in gap_cases():
         lines.append(f"str64 {e} {ds} gap")
+    for e, ds in limb_edge_cases():
+        lines.append(f"str64 {e} {ds} limbedge")
+    for e, ds in ripple_cases():
+        lines.append(f"str64 {e} {ds} ripple")
     text = "\n".join(lines) + "\n"
     if a.out == '-':
         sys.stdout.write(text)
